@@ -490,14 +490,70 @@ func c13norm(c *core.Ctx) {
 		c.Unresolved(R, "(*json.scanner).Scan")
 		return
 	}
+	// a step is passed where it is called - directly, or inside a helper of the package that is
+	// called there and itself passes through the step on every one of its non-error returns
+	isStep := func(name string) bool {
+		return name == "setExp" || name == "trimLeadingZerosInTheIntegerPart" || name == "trimTrailingZerosInTheFractionalPart"
+	}
+	var stepsOf func(f *ssa.Function, depth int) map[string]bool
+	stepsOf = func(f *ssa.Function, depth int) map[string]bool {
+		out := map[string]bool{}
+		if f == nil || f.Blocks == nil || depth > 2 {
+			return out
+		}
+		where := map[string]*ssa.BasicBlock{}
+		for _, b := range f.Blocks {
+			for _, in := range b.Instrs {
+				if call, ok := in.(*ssa.Call); ok {
+					if sc := call.Call.StaticCallee(); sc != nil {
+						if isStep(sc.Name()) {
+							where[sc.Name()] = b
+						} else if core.FuncPkgPath(sc) == core.FuncPkgPath(f) {
+							for k := range stepsOf(sc, depth+1) {
+								where[k] = b
+							}
+						}
+					}
+				}
+			}
+		}
+		// a step counts for f when it dominates every return that does not hand back an error
+		for name, sb := range where {
+			all := true
+			for _, b := range f.Blocks {
+				ret, ok := b.Instrs[len(b.Instrs)-1].(*ssa.Return)
+				if !ok {
+					continue
+				}
+				isErr := false
+				for _, r := range ret.Results {
+					if core.IsErrorType(r.Type()) {
+						if cst, isC := r.(*ssa.Const); !isC || cst.Value != nil || !cst.IsNil() {
+							isErr = true
+						}
+					}
+				}
+				if !isErr && !(sb == b || sb.Dominates(b)) {
+					all = false
+				}
+			}
+			if all {
+				out[name] = true
+			}
+		}
+		return out
+	}
 	steps := map[string]*ssa.BasicBlock{}
 	for _, b := range scan.Blocks {
 		for _, in := range b.Instrs {
 			if call, ok := in.(*ssa.Call); ok {
 				if sc := call.Call.StaticCallee(); sc != nil {
-					switch sc.Name() {
-					case "setExp", "trimLeadingZerosInTheIntegerPart", "trimTrailingZerosInTheFractionalPart":
+					if isStep(sc.Name()) {
 						steps[sc.Name()] = b
+					} else if core.FuncPkgPath(sc) == core.FuncPkgPath(scan) {
+						for k := range stepsOf(sc, 1) {
+							steps[k] = b
+						}
 					}
 				}
 			}
